@@ -23,7 +23,7 @@ COMPONENTS = {'real': ['pyrtl.Simulation (_initialize, step, _execute, _mem_upda
               'stub': ['RefSim reference model (verifsim/refsim.py)']}
 
 TIERS = {
-    'quick': {'runs': 60000, 'classes': 8, 'budget_s': 70},
+    'quick': {'runs': 60000, 'classes': 8, 'budget_s': 60},
     'thorough': {'runs': 2000000, 'classes': 32, 'budget_s': 1100},
 }
 
